@@ -243,6 +243,10 @@ func encodeText(text []rune, submode subMode) (subMode, []int) {
 	}
 	if len(tmp)%2 != 0 {
 		result = append(result, (h*30)+29)
+		if submode == subPunct {
+			// 29 is "latch to alpha" in the punctuation sub-mode: a reader is in alpha now
+			submode = subUpper
+		}
 	}
 	return submode, result
 }
